@@ -2,7 +2,9 @@
    (start = self.a, end = self.b), as the standard combination uses it (sparseSpACE/Grid.py, Grid1d.set_current_area):
      num_points = level_to_num_points_1d(level); num_points_with_boundary = the same with boundary = True;
      lowerBorder = 0, upperBorder = num_points; if not boundary and num_points < num_points_with_boundary:
-       lowerBorder = 1 (isclose(start, a)), upperBorder = num_points_with_boundary - 1 (isclose(end, b));
+       lowerBorder = 1 (start touches a), upperBorder = num_points_with_boundary - 1 (end touches b) - "touches" is
+       math.isclose(start, a) / isclose(end, b) up to /repo f7c3775 and |start - a| <= 1e-8*|b - a| (Grid1d.touches_lower_boundary /
+       touches_upper_boundary) with fixes/C08-boundary-tests-domain-relative.patch; on the whole interval both are True;
      spacing = (end - start) / (num_points_with_boundary - 1).
    Definitions only. The harness reads these attributes off the implementation objects and compares them (entry point sub 2);
    Proofs/GenTrapGrid1DEq.v feeds them to the functions generated from the source. *)
